@@ -6,7 +6,6 @@ use alloc::{vec, vec::Vec};
 use ixdtf::parsers::records::{TimeZoneRecord, UtcOffsetRecord};
 use num_traits::ToPrimitive;
 
-use crate::builtins::core::duration::DateDuration;
 use crate::parsers::{
     parse_allowed_timezone_formats, parse_identifier, parse_offset, FormattableOffset,
     FormattableTime, Precision,
@@ -19,9 +18,7 @@ use crate::{
     time::EpochNanoseconds,
     TemporalError, TemporalResult, ZonedDateTime,
 };
-use crate::{Calendar, Sign};
-
-const NS_IN_HOUR: i128 = 60 * 60 * 1000 * 1000 * 1000;
+use crate::{Sign, NS_PER_DAY};
 
 /// A UTC time zone offset stored in minutes
 #[derive(Debug, Clone, Copy, PartialEq, Eq)]
@@ -269,49 +266,21 @@ impl TimeZone {
             return Err(TemporalError::range().with_message("Rejecting ambiguous time zones."));
         }
 
-        // NOTE: Below is rather greedy, but should in theory work.
-        //
-        // Primarily moving hour +/-3 to account Australia/Troll as
-        // the precision of before/after does not entirely matter as
-        // long is it is distinctly before / after any transition.
-
-        // 6. Let before be the latest possible ISO Date-Time Record for
-        //    which CompareISODateTime(before, isoDateTime) = -1 and !
-        //    GetPossibleEpochNanoseconds(timeZone, before) is not
-        //    empty.
-        let before = iso.add_date_duration(
-            Calendar::default(),
-            &DateDuration::default(),
-            NormalizedTimeDuration(-3 * NS_IN_HOUR),
-            None,
-        )?;
-
-        // 7. Let after be the earliest possible ISO Date-Time Record
-        //    for which CompareISODateTime(after, isoDateTime) = 1 and !
-        //    GetPossibleEpochNanoseconds(timeZone, after) is not empty.
-        let after = iso.add_date_duration(
-            Calendar::default(),
-            &DateDuration::default(),
-            NormalizedTimeDuration(3 * NS_IN_HOUR),
-            None,
-        )?;
-
-        // 8. Let beforePossible be !
-        //    GetPossibleEpochNanoseconds(timeZone, before).
-        // 9. Assert: beforePossible's length is 1.
-        let before_possible = self.get_possible_epoch_ns_for(before, provider)?;
-        debug_assert_eq!(before_possible.len(), 1);
-        // 10. Let afterPossible be !
-        //     GetPossibleEpochNanoseconds(timeZone, after).
-        // 11. Assert: afterPossible's length is 1.
-        let after_possible = self.get_possible_epoch_ns_for(after, provider)?;
-        debug_assert_eq!(after_possible.len(), 1);
-        // 12. Let offsetBefore be GetOffsetNanosecondsFor(timeZone,
-        //     beforePossible[0]).
-        let offset_before = self.get_offset_nanos_for(before_possible[0].0, provider)?;
-        // 13. Let offsetAfter be GetOffsetNanosecondsFor(timeZone,
-        //     afterPossible[0]).
-        let offset_after = self.get_offset_nanos_for(after_possible[0].0, provider)?;
+        // NOTE: `before` and `after` are not searched for among wall-clock times (a probe a few
+        // hours away can itself fall into the gap and has no instant at all); the offsets are taken
+        // one day before and one day after `iso` read as if it were UTC. Both instants always
+        // exist, and for offsets and gaps of up to a day they lie on either side of the
+        // transition that skips `iso`.
+        // 6. Let epochNanoseconds be GetUTCEpochNanoseconds(isoDateTime).
+        let epoch_nanoseconds = iso.as_unchecked_nanoseconds();
+        // 7. Let dayBefore be epochNanoseconds - nsPerDay; if it is not valid, throw a RangeError exception.
+        let day_before = EpochNanoseconds::try_from(epoch_nanoseconds - NS_PER_DAY as i128)?;
+        // 8. Let dayAfter be epochNanoseconds + nsPerDay; if it is not valid, throw a RangeError exception.
+        let day_after = EpochNanoseconds::try_from(epoch_nanoseconds + NS_PER_DAY as i128)?;
+        // 12. Let offsetBefore be GetOffsetNanosecondsFor(timeZone, dayBefore).
+        let offset_before = self.get_offset_nanos_for(day_before.0, provider)?;
+        // 13. Let offsetAfter be GetOffsetNanosecondsFor(timeZone, dayAfter).
+        let offset_after = self.get_offset_nanos_for(day_after.0, provider)?;
         // 14. Let nanoseconds be offsetAfter - offsetBefore.
         let nanoseconds = offset_after - offset_before;
         // 15. Assert: abs(nanoseconds) ≤ nsPerDay.
@@ -335,9 +304,11 @@ impl TimeZone {
             let earlier = IsoDateTime::new_unchecked(earlier_date, earlier_time.1);
             // e. Set possibleEpochNs to ? GetPossibleEpochNanoseconds(timeZone, earlierDateTime).
             let possible = self.get_possible_epoch_ns_for(earlier, provider)?;
-            // f. Assert: possibleEpochNs is not empty.
+            // f. If possibleEpochNs is empty, throw a RangeError exception.
             // g. Return possibleEpochNs[0].
-            return Ok(possible[0]);
+            return possible.first().copied().ok_or_else(|| {
+                TemporalError::range().with_message("Skipped time could not be resolved.")
+            });
         }
         // 17. Assert: disambiguation is compatible or later.
         // 18. Let timeDuration be TimeDurationFromComponents(0, 0, 0, 0, 0, nanoseconds).
@@ -355,11 +326,12 @@ impl TimeZone {
         let later = IsoDateTime::new_unchecked(later_date, later_time.1);
         // 22. Set possibleEpochNs to ? GetPossibleEpochNanoseconds(timeZone, laterDateTime).
         let possible = self.get_possible_epoch_ns_for(later, provider)?;
-        // 23. Set n to possibleEpochNs's length.
-        let n = possible.len();
-        // 24. Assert: n ≠ 0.
-        // 25. Return possibleEpochNs[n - 1].
-        Ok(possible[n - 1])
+        // 23. If possibleEpochNs is empty, throw a RangeError exception.
+        // 24. Return the last element of possibleEpochNs.
+        possible
+            .last()
+            .copied()
+            .ok_or_else(|| TemporalError::range().with_message("Skipped time could not be resolved."))
     }
 
     pub(crate) fn get_start_of_day(
